@@ -470,3 +470,34 @@ func (a *FeederActor) Act(e *Env) {
 	}
 	_ = sdk.Coins{}
 }
+
+// FeedsParamChurn: governance moves the parameters that decide the current feed list -- the power threshold, the interval
+// range and the maximum number of feeds -- while votes keep changing, including values at the edges of their types (1,
+// min above max, 2^62, 2^63-1, no feeds at all, 2^64-1 feeds). Proposed only when the module's own validation accepts them.
+type FeedsParamChurn struct{ Rate int }
+
+func (p *FeedsParamChurn) OnBlock(e *Env, blk *world.BlockRecord) {}
+func (p *FeedsParamChurn) Act(e *Env) {
+	if e.Draining || e.Step < 4 || !e.Ch.Bool("feeds.paramchurn", p.Rate) {
+		return
+	}
+	gov := getGov(e)
+	if gov == nil {
+		return
+	}
+	np := e.App().FeedsKeeper.GetParams(e.Ctx())
+	switch e.Ch.Intn("feeds.paramchurn.what", 4) {
+	case 0:
+		np.PowerStepThreshold = []int64{1, 2, int64(200 + e.Ch.Intn("feeds.paramchurn.step", 3000)), 1 << 62, 1<<63 - 1}[e.Ch.Intn("feeds.paramchurn.stepk", 5)]
+	case 1:
+		np.MinInterval = []int64{1, int64(5 + e.Ch.Intn("feeds.paramchurn.min", 30)), 1 << 62, 1<<63 - 1}[e.Ch.Intn("feeds.paramchurn.mink", 4)]
+	case 2:
+		np.MaxInterval = []int64{1, int64(10 + e.Ch.Intn("feeds.paramchurn.max", 150)), 1 << 62, 1<<63 - 1}[e.Ch.Intn("feeds.paramchurn.maxk", 4)]
+	case 3:
+		np.MaxCurrentFeeds = []uint64{0, 1, 2, 5, 1 << 32, 1<<64 - 1}[e.Ch.Intn("feeds.paramchurn.maxfeeds", 6)]
+	}
+	if np.Validate() == nil {
+		gov.Propose(e, "params_feeds", nil, &feedstypes.MsgUpdateParams{Authority: govAuthority, Params: np})
+		e.St.Fault("feed_list_parameters_changed_by_governance")
+	}
+}
